@@ -216,6 +216,16 @@ func (fr *Frame) execInstr(in ssa.Instruction) bool {
 	case *ssa.UnOp:
 		fr.execUnOp(x)
 	case *ssa.BinOp:
+		if cx, ok := x.X.(*ssa.Const); ok {
+			if cy, ok := x.Y.(*ssa.Const); ok && cx.Value != nil && cy.Value != nil && (x.Op == token.EQL || x.Op == token.NEQ) {
+				eq := constant.Compare(cx.Value, token.EQL, cy.Value)
+				if x.Op == token.NEQ {
+					eq = !eq
+				}
+				fr.set(x, Val{S: fmt.Sprint(eq)})
+				return false
+			}
+		}
 		fr.set(x, fr.binop(x, x.Op, fr.val(x.X), fr.val(x.Y)))
 	case *ssa.Store:
 		a := fr.val(x.Addr)
@@ -936,9 +946,11 @@ func (fr *Frame) runDefers() {
 		savedPC := fr.pc
 		before := fr.st.clone()
 		fr.pc = mkAnd(savedPC, guard)
+		fr.e.pcNow = fr.pc
 		fr.doCall(d.instr, d.instr.Common(), d.fnVal, d.args, nil)
 		after := fr.st
 		fr.pc = savedPC
+		fr.e.pcNow = savedPC
 		fr.st = fr.e.mergeStates([]string{mkAnd(savedPC, guard), mkAnd(savedPC, mkNot(guard))}, []*State{after, before})
 	}
 }
